@@ -279,3 +279,22 @@ Definition run_seqf (fuel : nat) (os : nat -> list copt) (stages : list (list rn
 
 (* the first run called with o1, the resuming ones with o2 *)
 Definition two_opts (o1 o2 : list copt) (k : nat) : list copt := match k with O => o1 | S _ => o2 end.
+
+(* ------------------------------------------------------------------ a resuming run that fails in its prologue *)
+
+(* runner.run can fail before it submits its first task: a call option is rejected (extractOption), the
+   checkpoint cannot be read (getCheckPointFromStore: the store fails, the bytes do not decode), cannot
+   be restored (restoreCheckPoint, loadChannels, the state modifier fails), or its pending tasks belong
+   to no node of the graph that resumes it (restoreTasks: "channel[..] from checkpoint is not registered" -
+   the checkpoint was written by another build of the graph).  Every one of these leaves runner.run by
+   [return nil, newGraphRunError(..)] before the main loop; what the handlers see is the deferred
+   bookkeeping's work: the graph's start, then the graph's error, once each ([graph_body] with ok = false;
+   the translator tie gen_graph_bookkeeping_agrees shows it for every such path of the code).  The model
+   has one way of saying "the prologue of this run fails": a call option that extractOption rejects and
+   that carries no handler - an empty designated path. *)
+Definition prologue_fault : copt := ([], [[]]).
+
+(* the [at_run]-th call of the sequence (counted from 0; 0 = no such call: the first call resumes nothing)
+   fails in its prologue *)
+Definition with_fault (at_run : nat) (os : nat -> list copt) (k : nat) : list copt :=
+  if Nat.ltb 0 at_run && Nat.eqb k at_run then prologue_fault :: os k else os k.
